@@ -221,6 +221,7 @@ func (r *run) recoverImage(root, template string, log []simos.Effect, k int, tru
 	sub := &run{prop: r.prop, cfg: r.cfg, out: out, dir: img, l: r.l, nodes: r.nodes, status: map[[32]byte]int{}, waiting: map[[32]byte][]int{}}
 	cfg2 := *r.cfg
 	cfg2.ClientRecovery = (k%2 == 0) != r.cfg.ClientRecovery
+	cfg2.RealAlloc = false // (recovery images are about the disk; the allocator is exercised by the live history)
 	sub.cfg = &cfg2
 	sub.lenientTip = true
 	res := simrt.Run(simrt.Config{Seed: r.cfg.SchedSeed ^ uint64(k)*0x9E37, YieldP: r.cfg.YieldP / 2, MaxConsec: r.cfg.MaxConsec, StepBudget: 30_000_000}, func() {
@@ -300,7 +301,11 @@ func (r *run) recoverImage(root, template string, log []simos.Effect, k int, tru
 		// same final state as the uninterrupted twin (an equal-work, equally valid tip is tolerated: first-seen order is not durable)
 		fh, _ := sub.n.Tip()
 		fn := r.l.Nodes[fh]
-		if fn == nil || !fn.Valid() || fn.CumWork.Cmp(final.CumWork) != 0 {
+		if fn != nil && fn.Valid() && fn.CumWork.Cmp(final.CumWork) > 0 {
+			// blocks that were refused as "too far in the future" during the uninterrupted run are acceptable at
+			// the (later) clock of the re-feeding: ending higher than the twin is then the right answer
+			out.Probe("refeed_ended_on_more_work_than_the_twin", 1)
+		} else if fn == nil || !fn.Valid() || fn.CumWork.Cmp(final.CumWork) != 0 {
 			r.viol("crash.final-state", "after crash recovery and re-feeding the history the tip is %s (work %v), the uninterrupted run ended in %s (work %s). %s", hs(fh), workOf(fn), hs(final.Hash), final.CumWork.String(), desc)
 			ok = false
 			return
